@@ -342,7 +342,7 @@ func (e *Engine) concretizeReg(c *Config, f *Frame, v ssa.Value) (*RefV, bool) {
 func pruneRefUnder(r *RefV, g *Term) *RefV {
 	var alts []RefAlt
 	for _, a := range r.Alts {
-		if And(a.G, g).IsFalse() {
+		if ag := And(a.G, g); ag.IsFalse() || semFalse(ag) {
 			continue
 		}
 		alts = append(alts, a)
